@@ -5,7 +5,7 @@ M3 cpy_file_entry copies every field          M4 every write to the output array
 M5 no index E-k with unsigned E unless E >= k is established        M6 on a key match the override's value wins
 M7 a key defined on both sides is not inserted a second time (exactly one visible value per key)
 M8 the scan for an existing key covers the whole result   M9 every merge helper runs for every pair   M10 group-less override-only keys go first
-M12 base entries are copied front to back   M13 the section listing filters the group-less marker wherever it stands (= C11.A7)
+M14 the loops over the inputs run for every pair of non-NULL inputs   M12 base entries are copied front to back   M13 the section listing filters the group-less marker wherever it stands (= C11.A7)
 M11 an override-only entry is inserted behind the last entry of its section; entries of a new section at the end"""
 import re
 
@@ -384,6 +384,32 @@ def run(prog, ctx):
             ctx.fail("M12", inst12, inner.where, "the base is walked back to front (%s): base keys do not keep their relative order" % sh12.describe(), key="base-order:%s" % h.name)
         else:
             ctx.inconclusive("M12", inst12, inner.where, "loop over the base not recognised (%s)" % sh12.describe())
+    # ---- M14 the loop over an input runs for every pair of non-NULL inputs: no way round it that depends on the OTHER input's (or its
+    # own) content - an override without entries (comment-only file, fresh object: entry table NULL) must not make the base disappear
+    for role in ("base", "override"):
+        for h, st, l, inner in charges.get(role, []):
+            hcfg = h.cfg
+            lhb = hcfg.loop_header(inner)
+            succ14 = {(b, i): s2 for (b, i, s2) in hcfg.edges()}
+            pn = set(h.param_names())
+
+            def cut14(lit, b, i):
+                if succ14.get((b, i)) == lhb:
+                    return True
+                # skipping because a parameter itself is NULL is what the unchanged code does as well (and econf_mergeFiles refuses NULL inputs)
+                if lit is not None and lit.kind == "truth" and not lit.pol and (lit.atom in pn or lit.atom.lstrip("*") in pn):
+                    return True
+                return False
+            wp = hcfg.feasible_reach(hcfg.exit, cut14, lambda a: True)
+            inst14 = "%s: the loop over the %s runs for every pair of inputs" % (h.name, role)
+            if wp is None:
+                ctx.ok("M14", inst14, inner.where, "it can only be skipped when a parameter is NULL")
+            else:
+                lits = [hcfg.edge_lit(b, i) for (b, i) in wp if hcfg.edge_lit(b, i) is not None]
+                why = [str(x) for x in lits if "->" in x.atom or "." in x.atom][:2] or [str(x) for x in lits][:2]
+                ctx.fail("M14", inst14, (lits[0].node if lits else inner).where,
+                         "the function can return without running it when %s: e.g. an override that has no entries at all (its entry table is NULL) makes the "
+                         "whole base vanish from the result" % " and ".join(why), key="input-loop-skipped:%s:%s" % (h.name, role), path=hcfg.describe_path(wp)[-5:])
     # ---- M11 where an override-only entry is inserted: behind the last entry of its section, a new section at the end ------
     for h, st, l, inner in charges.get("override", []):
         idxv = l.children[1].strip()
